@@ -203,6 +203,14 @@ def run_pairs(job, ctx):
         ctx.event('boundary_calls', 4)
         usable = len(alone[first]) == 1 and len(alone[second]) == 1
         ctx.observe(key=key, nontrivial=usable and len(both) == 2, cell=cu + ':pair', sample={'culture': cu, 'query': q, 'observed': both})
+        # the options a recogniser is built with (skip-from-to merge, split date and time, calendar) do not touch a plain year-less date
+        for opt in (1, 2, 4):
+            mo = dtlib.dt_model_opt(cu, opt)
+            vo = [(e.text, e.type_name, [(v.get('timex'), v.get('value')) for v in dtlib.vals(e)]) for e in mo.parse(second, R)]
+            ctx.event('option_variant_runs')
+            if vo != alone[second]:
+                ctx.fail('reading-depends-on-recogniser-options', dict(where, options=opt), key, dict(case, options=opt), alone[second], vo)
+                break
         if again != alone[second]:
             ctx.fail('reading-depends-on-earlier-call', where, key, case, alone[second], again)
         elif usable and len(both) == 2 and first != second:
